@@ -109,6 +109,7 @@ func (in *Interp) safeEval(p *Plan, src reflect.Value, dt reflect.Type) (r callR
 	}()
 	in.depth = 0
 	in.NonInjective = false
+	in.Ambiguous = false
 	r.out, r.err = in.Eval(p, src, dt)
 	return r
 }
@@ -181,6 +182,10 @@ func runCase(c Case, k int) CaseResult {
 			fail(Fail{Kind: "harness", Value: shown, Detail: fmt.Sprintf("model interpreter panicked: %v", m.pval)})
 			continue
 		}
+		if in.Ambiguous && (g.panicked || g.err != nil) {
+			res.Seen["error-or-panic-by-map-order"]++
+			continue
+		}
 		switch {
 		case g.panicked && !m.panicked:
 			res.Seen["panic"]++
@@ -199,7 +204,7 @@ func runCase(c Case, k int) CaseResult {
 		}
 		if g.err != nil {
 			res.Seen["error"]++
-			if d := in.checkErr(&ps, modelIn, g.err, modes); d != "" {
+			if d := in.checkErr(&ps, v, g.err, modes); d != "" {
 				fail(Fail{Kind: "error-path", Value: shown, Got: fmt.Sprint(g.err), Detail: d})
 			}
 			continue
